@@ -315,7 +315,11 @@ func (r *Runner) catP(out []byte) M {
 		res["esc"] = Esc(body)
 	}
 	lines := []any{}
-	for _, ln := range splitLines(body) {
+	ls := splitLines(body)
+	if len(ls) > 0 && !treeLineRe.MatchString(ls[0]) {
+		ls = nil // not a tree listing: the bytes are carried by the content token
+	}
+	for _, ln := range ls {
 		if m := treeLineRe.FindStringSubmatch(ln); m != nil {
 			lines = append(lines, M{"m": m[1], "k": m[2], "id": m[3], "n": r.T.Name([]byte(m[4]))})
 		} else {
